@@ -190,7 +190,9 @@ def run(ctx):
 
 def bounded(ctx, real, rng):
     """documents and histories: last matching Files paragraph, cache of files_pattern"""
-    globsets = [["*"], ["src/*"], ["debian/*"], ["debian/rules"], ["src/a?.c", "doc/*"], ["*.c"], ["src/*.h", "*/Makefile"]]
+    globsets = [["*"], ["src/*"], ["debian/*"], ["debian/rules"], ["src/a?.c", "doc/*"], ["*.c"], ["src/*.h", "*/Makefile"],
+                ["src/\\x"], ["doc/*", "a\\"]]
+    illegal = lambda gs: any(re.search(r"\\(?![*?\\])", g.replace("\\\\", "")) for g in gs)
     names = ["debian/rules", "debian/rules.in", "src/a1.c", "src/x/y.c", "doc/readme", "Makefile", "src/Makefile",
              "src/a.h", "x", "", "src/a\n.c"]
 
@@ -236,10 +238,25 @@ def bounded(ctx, real, rng):
                 ops.append(["set files", i, gs])
             else:
                 name = rng.choice(names)
-                got = c.find_files_paragraph(name)
-                exp = model_find(model, name)
-                evals += 1
                 ops.append(["find_files_paragraph", name])
+                evals += 1
+                must_raise = any(m is not None and illegal(m) for m in model)
+                try:
+                    got = c.find_files_paragraph(name)
+                    raised = None
+                except real.MachineReadableFormatError as e:
+                    raised = e
+                except Exception as e:
+                    fail = dict(what="find_files_paragraph raised %r" % (e,), operations=ops)
+                    break
+                if must_raise != (raised is not None):
+                    fail = dict(what="a Files paragraph with an illegal escape must make every query raise the format error "
+                                     "(raised: %r, expected to raise: %s)" % (raised, must_raise), operations=ops)
+                    break
+                if raised is not None:
+                    nontrivial.add((tuple(tuple(m) if m else None for m in model), name, "error"))
+                    continue
+                exp = model_find(model, name)
                 ok = (got is None and exp is None) or (exp is not None and got is objs[exp])
                 if exp is not None:
                     nontrivial.add((tuple(tuple(m) if m else None for m in model), name))
@@ -253,7 +270,7 @@ def bounded(ctx, real, rng):
         if len(samples) < 3 and len(ops) >= 4:
             samples.append(ops)
     ctx.bounded("B-16 find_files_paragraph over documents and histories (add / set files / query)", evals, len(nontrivial),
-                "seeded histories of 2-7 operations over 7 glob lists and 11 file names (incl. names with newline, prefix-of-pattern "
+                "seeded histories of 2-7 operations over 9 glob lists (two with an illegal escape: every query must raise, also the second time) and 11 file names (incl. names with newline, prefix-of-pattern "
                 "names); reference model: index of the last Files paragraph with a matching glob; non-trivial = distinct "
                 "(document, name) with a match", "%d histories" % rounds, samples)
     if fail:
